@@ -36,7 +36,7 @@ def progress_scenarios(ctx, n, start):
             sc = core.base(run, cap=rng.choice([2, 4, 16]), pool=rng.choice(["std", "low_memory"]), workers=rng.choice([1, 2]),
                            batch=rng.choice([1, 2]), timeout_ms=rng.choice([10, 30]), single=rng.random() < 0.3,
                            lines=core.random_lines(rng, nev, rng.choice([1, 2]), rng.choice([["a"], ["a", "b"]]),
-                                                   rng.choice([["H", "C", "C", "P", "H"], ["H", "N", "C", "N"], ["H", "N"]])))
+                                                   rng.choice([["H", "C", "C", "P", "H"], ["H", "N", "C", "N"], ["H", "N"], ["G", "P", "Q"], ["G", "C", "P", "G"]])))
         elif fam == 2:    # partially filled batches: only the flush timer can hand them over
             sc = core.base(run, cap=16, workers=rng.choice([1, 2, 3]), batch=rng.choice([4, 7, 16]), flush_ms=rng.choice([5, 20, 50]),
                            lines=core.random_lines(rng, nev, rng.choice([1, 2]), ["a", "b"], ["P", "P", "D"]))
@@ -128,6 +128,12 @@ def run(ctx):
     ctx.extra["lost_wakeup_windows_constructed"] = gate_seen
     ctx.classify(recs)
     ctx.sample(res[0])
+    # lock order between stream.mu and the streamer's blocked list (LockOrder.tla: the faithful model never deadlocks, the mutant --
+    # tryUnblock called under blockedMu -- does)
+    ctx.tlc_expect_ok("LockOrder", "LockOrder_ok.cfg", timeout=300, deadlock=True, name="LockOrder/faithful")
+    r = ctx.tlc("LockOrder", "LockOrder_mut.cfg", timeout=300, deadlock=True, name="LockOrder/mutant (heartbeat holds blockedMu over tryUnblock)")
+    if r.ok or r.kind != "deadlock":
+        raise vlib.Infra("spec mutant M_HeartbeatWorksOnCopy of LockOrder does not deadlock (%s)" % r.violated)
     # 2b. the real stream: two finalizations of one stream in a constructed window (StreamProto: M_CommitCheckUnderLock) and racing
     out3 = os.path.join(ctx.scratch, "c04_stream.json")
     rc, txt = ctx.run_bin(binary, "^TestVerifC04Stream$", env={"VERIF_OUT": out3}, timeout=300)
@@ -145,7 +151,9 @@ def run(ctx):
     for scen, rs in sorted(by.items()):
         ctx.evaluations += len(rs)
         bad = [r for r in rs if not r["ok"]]
-        if bad and (len(bad) == len(rs) or scen == "commit-race"):       # constructed windows must reproduce in every trial
+        if bad and scen == "blocked-streams-keep-flowing":
+            srecs.append({"kind": "blocked_streams_wedged", "scenario": scen, "what": bad[0]["what"], "delivered": bad[0].get("rounds", 0)})
+        elif bad and (len(bad) == len(rs) or scen == "commit-race"):       # constructed windows must reproduce in every trial
             srecs.append({"kind": "stream_commit_went_back", "scenario": scen, "what": bad[0]["what"], "trials": len(rs), "failed": len(bad)})
         elif bad:
             ctx.drift += 1
